@@ -629,6 +629,7 @@ func mergeAndPersistSynonymSection(segments []*SegmentBase, dropsIn []*roaring.B
 		}
 
 		var prevTerm []byte
+		var havePrevTerm bool // prevTerm may legitimately be the empty term
 
 		newRoaring.Clear()
 
@@ -652,7 +653,7 @@ func mergeAndPersistSynonymSection(segments []*SegmentBase, dropsIn []*roaring.B
 		for err == nil {
 			term, itrI, postingsOffset := enumerator.Current()
 
-			if prevTerm != nil && !bytes.Equal(prevTerm, term) {
+			if havePrevTerm && !bytes.Equal(prevTerm, term) {
 				// check for the closure in meantime
 				if isClosed(closeCh) {
 					return nil, nil, seg.ErrClosed
@@ -700,6 +701,7 @@ func mergeAndPersistSynonymSection(segments []*SegmentBase, dropsIn []*roaring.B
 
 			prevTerm = prevTerm[:0] // copy to prevTerm in case Next() reuses term mem
 			prevTerm = append(prevTerm, term...)
+			havePrevTerm = true
 			err = enumerator.Next()
 		}
 		if err != vellum.ErrIteratorDone {
@@ -711,7 +713,7 @@ func mergeAndPersistSynonymSection(segments []*SegmentBase, dropsIn []*roaring.B
 			return nil, nil, err
 		}
 
-		if prevTerm != nil {
+		if havePrevTerm {
 			err = finishTerm(prevTerm)
 			if err != nil {
 				return nil, nil, err
